@@ -3,7 +3,7 @@ import itertools
 
 from sa.sym import Engine, show, show_cond, subterms, C, is_const, PathLimit
 from .common import *
-from .tables import is_true, is_false
+from .tables import is_true, is_false, pin
 
 EXPLANATION = (
     "Static clauses: (R1) the two square->bonus-index tables are permutations of 0..63 and mirror images of each other "
@@ -61,7 +61,7 @@ def r2_colour_blind(ctx):
     uses = set()
     table_by_colour = {}
     for o in outs:
-        col = cd.get(dict(o.conds).get(('discr', ('p', 2))))
+        col = cd.get(pin(dict(o.conds).get(('discr', ('p', 2)))))
         terms = [a for a, v in o.conds] + [o.value] if o.value else [a for a, v in o.conds]
         for e in o.events:
             if e[0] == 'call':
@@ -107,6 +107,25 @@ def r2_colour_blind(ctx):
     ctx.ob(rule, name, 'summands are MATERIAL_VALUES[piece] and BONUS_TABLES[piece][endgame][index]',
            ('MATERIAL_VALUES',) in shapes and any('BONUS_TABLES' in s for s in shapes), found=sorted(shapes),
            expected=[('MATERIAL_VALUES',), ('BONUS_TABLES', 'SQUARE_TO_*_BONUS_INDEX')])
+    # the per-piece summand must be the same term for both colours up to the mirrored index table and the piece set
+    import re as _re
+    upd = {}
+    for o in outs:
+        if o.kind != 'backedge' or not o.locals:
+            continue
+        col = cd.get(pin(dict(o.conds).get(('discr', ('p', 2)))))
+        for l, t in o.locals.items():
+            if any(s[0] == 'named' and s[1].endswith('MATERIAL_VALUES') for s in subterms(t)) and t[0] == 'bin':
+                s = show(t)
+                s = s.replace('SQUARE_TO_WHITE_BONUS_INDEX', 'IDX').replace('SQUARE_TO_BLACK_BONUS_INDEX', 'IDX')
+                s = _re.sub(r'[#@]\d+', '#', s)
+                s = _re.sub(r'Color::(White|Black)', 'Color::SIDE', s)
+                s = _re.sub(r'local\(\d+:\d+\)', 'local', s)
+                upd.setdefault(col, set()).add(s)
+    same = upd.get('White') == upd.get('Black') and bool(upd.get('White'))
+    ctx.ob(rule, name, 'per-piece summand identical for both colours up to the mirrored index table', same,
+           found={k: sorted(v)[:2] for k, v in upd.items()}, expected='material += MATERIAL_VALUES[p] + BONUS_TABLES[p][eg][IDX[i]] for both colours',
+           why='any colour-dependent term in the sum breaks score(mirror(p)) == -score(p)')
     # board_material_score = score(White) - score(Black)
     n2 = EV + 'board_material_score'
     outs = Engine(facts, readonly={name}).run(n2)
